@@ -1230,6 +1230,13 @@ def _get_cached_arg_spec(fn: Callable[..., Any]) -> inspect.FullArgSpec:
     except TypeError:
       # `fn` might be a callable object.
       arg_spec = inspect.getfullargspec(fn.__call__)
+    is_bound = inspect.ismethod(fn) or not (
+        inspect.isroutine(fn) or inspect.isclass(fn) or
+        isinstance(fn, functools.partial))
+    if is_bound and arg_spec.args:
+      # For bound methods and callable objects `getfullargspec` also reports the
+      # bound first parameter (`self`), which callers never supply.
+      arg_spec = arg_spec._replace(args=arg_spec.args[1:])
     _ARG_SPEC_CACHE[fn] = arg_spec
   return arg_spec
 
